@@ -246,9 +246,13 @@ func (ds *AnySource) Stop() error {
 	}
 	ds.sourceState = Stopping
 	closeIfOpen(ds.abortSelf)
+	done := ds.runDoneChan // this run's channel, taken while the lock is held
 	ds.sourceStateLock.Unlock()
 
-	ds.RunDoneWait()
+	// Wait on the run's own channel rather than on the shared WaitGroup: once the state is Inactive
+	// another goroutine may Start the source again, and WaitGroup.Add panics ("reused before previous
+	// Wait has returned") if it overtakes a waiter that has been released but has not yet returned.
+	<-done
 	ds.groupKeysSorted = make([]GroupIndex, 0)
 	if ds.writingState.Active { // if writing, Stop writing
 		wcc := WriteControlConfig{Request: "STOP"}
